@@ -68,7 +68,7 @@ PROPS = {
         "claim": "Decides the structural clauses XP1–XP4 of to_xml()/to_dot(): per-vertex emission is control-dependent on the slot's tag being non-zero (sibling rule over keys / Debug / to_xml / to_dot), vertices come from the ascending store iteration or a sort by id and edges pass a sort by label, one edge entry per item of the vertex's edge map with that item's label and target and no condition on the edge, and the data entry is guarded by persistence ∉ {Empty} (nothing narrower) and prints that vertex's data. Does not decide well-formedness/escaping of the produced text.",
         "note": "Trusted: rustc front end + engine; emap iteration is ascending and skips no Some slot; itertools sorted_by_key is a stable sort. The text-level clause (document parses back) is not decided.",
         "technique": "MIR guard + iterator-chain (taint/sanitiser) + provenance rules",
-        "rules": [("XP1", L.xp1), ("XP2", L.xp2), ("XP3", L.xp3), ("XP4", L.xp4)],
+        "rules": [("XP1", L.xp1), ("XP2", L.xp2), ("XP3", L.xp3), ("XP4", L.xp4), ("RW7", LB.lb7), ("HX6", H.hx6)],
         "explanation": "XP1 present filter (sibling rule, floor 4 listings), XP2 ascending vertex order and label-sorted edges, XP3 one unconditional entry per edge with its label and target, XP4 data entry iff has-data.",
         "trusted": [RUSTC, CONTAINERS],
         "assumptions": ["labels need no XML escaping (property precondition)"],
@@ -86,7 +86,7 @@ PROPS = {
         "claim": "Decides the structural clauses LB1–LB5: the single-character variant is chosen by a character count of exactly 1 (chars-derived), never by the UTF-8 byte length; every store into the 8-slot array cannot leave the array (index tested to be in 0..=7, get_mut, or iter_mut zipped slots-first), all 8 slots are usable, slot i receives the i-th of all characters of the text, and a 9th character reaches a constructed Err (no panic, no truncation); the alpha index is the parsed text after exactly one skipped character and the parse error is propagated; the padding character written by from_str is the one Debug filters, the alpha prefix tested is the one printed, the Greek arm prints exactly its character, Display delegates to Debug. Does not decide round-trip equality or injectivity over all strings.",
         "note": "Trusted: rustc front end + engine; std str::chars/parse. The value-level round trip and injectivity are not decided; these clauses are necessary conditions of it.",
         "technique": "MIR taint (byte length vs char count) + guard + writer/reader constant agreement",
-        "rules": [("LB1", LB.lb1), ("LB2", LB.lb2), ("LB3", LB.lb3), ("LB4/LB5", LB.lb45)],
+        "rules": [("LB1", LB.lb1), ("LB2", LB.lb2), ("LB3", LB.lb3), ("LB4/LB5", LB.lb45), ("RW7", LB.lb7)],
         "explanation": "LB1 unit of the single-char decision, LB2 bounded store / Err on over-long, LB3 index parse propagated, LB4/LB5 writer/reader constants agree.",
         "trusted": [RUSTC],
         "assumptions": [],
@@ -95,7 +95,7 @@ PROPS = {
         "claim": "Decides the structural clauses HX1–HX5: each of the eight Index/IndexMut impls guards its inline-array access by exactly the comparison the byte slice's own bound check makes (bounds table), with the other edge panicking; eq/print/to_vec/byte_at/tail/to_i64/to_f64/to_utf8/is_empty/to_bool/Debug/Display never look at the representation, only at bytes()/len()/print(); bytes() is the array cut to exactly the length field and len() the stored length; numeric conversions use the big-endian pair through a whole-bytes [u8; 8] conversion with the error propagated; from_slice picks the inline form iff len ≤ 8, copies exactly slice.len() bytes and records slice.len(). Does not decide from_str(print(h)) == h (value round trip through the hex crate).",
         "note": "Trusted: rustc front end + engine; std slice/array indexing semantics (the bounds table is derived from them); hex crate. The text round trip is not decided.",
         "technique": "MIR sibling-agreement (bounds table) + representation-encapsulation + provenance rules",
-        "rules": [("HX1", H.hx1), ("HX2", H.hx2), ("HX3", H.hx3), ("HX4", H.hx4), ("HX5", H.hx5)],
+        "rules": [("HX1", H.hx1), ("HX2", H.hx2), ("HX3", H.hx3), ("HX4", H.hx4), ("HX5", H.hx5), ("HX6", H.hx6)],
         "explanation": "HX1 bounds table over 8 Index impls, HX2 representation encapsulation (12 accessors + PartialEq), HX3 bytes()/len(), HX4 endianness pair and whole-bytes conversion, HX5 from_slice/from_vec.",
         "trusted": [RUSTC],
         "assumptions": [],
@@ -204,7 +204,7 @@ PROPS = {
         "claim": "Decides SC1–SC4: in the per-command function the three graph calls are control-dependent on the command name (capture 1 of the command text) being equal to ADD / BIND / PUT and take add(id(arg0)), bind(id(arg0), id(arg1), Label::from_str(arg2)), put(id(arg0), data(arg1)) on the given graph, with no other graph mutation in the closure of deploy_to; one next_id per variable name (NX5); the returned count is incremented exactly once on the success edge of each deployed command and commands run in split(';') order through order-preserving adaptors only; no panicking operation on script-derived data outside an audited table (Regex::new on literals, captures that always participate, hex-pair parsing dominated by the hex-pairs regex). Does not decide the grammar itself (what the regular expressions accept: comment stripping, whitespace, hex formatting).",
         "note": "Trusted: rustc front end + engine; regex crate semantics for the audited exceptions. The grammar (language accepted by the four regular expressions) is not code shape and is not decided; e.g. a trailing comment without newline is not stripped (DESIGN §4).",
         "technique": "MIR dispatch-table agreement (guard + argument provenance) + error-discipline rule",
-        "rules": [("SC1", SC.sc1), ("SC2", NX.nx5), ("SC3", SC.sc3), ("SC4", SC.sc4)],
+        "rules": [("SC1", SC.sc1), ("SC2", NX.nx5), ("SC3", SC.sc3), ("SC4", SC.sc4), ("SC5", SC.sc5)],
         "explanation": "SC1 dispatch table (floor 3), SC2 variables, SC3 count and order, SC4 panicking operations vs audited table (floor 8).",
         "trusted": [RUSTC, "regex crate"],
         "assumptions": ["programs within the capacity limits and preconditions"],
